@@ -281,7 +281,7 @@ pub fn run(ctx: &Ctx) -> usize {
 		violations += 1;
 	}
 	let cfg = cfg(ctx);
-	if run_dna(ctx, "dna", ctx.n(3000, 100_000), dna_max(ctx), |dna, counting| check(ctx, &gen_case(dna, &cfg), "dna", counting)).is_some() {
+	if run_dna(ctx, "dna", ctx.n(20_000, 600_000), dna_max(ctx), |dna, counting| check(ctx, &gen_case(dna, &cfg), "dna", counting)).is_some() {
 		violations += 1;
 	}
 	if !ctx.quick() && violations == 0 {
